@@ -38,7 +38,7 @@ def sites(interp, obj, path=(), heavy=False):
     for ins in instrs:
         if ins.kind == "switch":
             cd = obj.fields.get(ins.field + "_data")
-            case = interp.select_case(ins, obj.fields.get(ins.field), obj.cls)
+            case = interp.select_case(ins, interp.switch_value(ins, obj), obj.cls)
             if case is not None:
                 if case.body:
                     out.append((path, "casedata-none", ins))
@@ -184,7 +184,7 @@ def apply(interp, obj, site, vg=None):
             return None
         o.fields[ins.field + "_data"] = vg.obj(o.cls + (interp.case_class_name(ins.field, other),), False)
     elif op == "casedata-wrong-class":
-        case = interp.select_case(ins, o.fields.get(ins.field), o.cls)
+        case = interp.select_case(ins, interp.switch_value(ins, o), o.cls)
         other = next(c for c in ins.cases if c.body and c is not case)
         if vg is None:
             return None
